@@ -13,6 +13,7 @@ RULE = ("each case runs a structure (repository proteins, cut-outs, chimeras) on
         "whole .pka text identical for pure input edits). Non-trivial: the edit touched >= 1 % of the "
         "lines or added >= 10 atoms and the structure has >= 2 titratable groups; distinct = distinct "
         "(structure digest, edit kind, edit seed).")
+RULE = RULE + ' Rounds 11-12: ligands whose recognition counts nitrogen neighbours come up more often; input hydrogens under alternate-location labels of their own.'
 ASSUMPTIONS = ["-k feedback is judged only when no written-back hydrogen lies within 1.5 A of a heavy atom "
                "other than its parent (otherwise bond perception legitimately differs); such cases are "
                "counted as inconclusive"]
